@@ -297,6 +297,36 @@ def run(ck: Check) -> int:
         K.k5_loop(sr, drv, G, W, U, R, ntrees, lambda R_, t: _cases(R_, G, t, per), on_case)
     ck.stream('K5-glob-events', s_k5)
 
+    # sibling directories that differ only in case, IGNORECASE, a LITERAL first segment and two or more further segments (several
+    # starting paths; seeded change C04d hoisted the remaining-segments list out of the per-start loop; the random trees caught it
+    # only by luck)
+    def _case_spec(R_):
+        spec = [('pkg', 'dir', ''), ('PKG', 'dir', ''), ('Pkg', 'dir', ''), ('pkg/src', 'dir', ''), ('PKG/src', 'dir', ''), ('Pkg/src', 'dir', ''),
+                ('pkg/src/core', 'dir', ''), ('PKG/src/core', 'dir', ''), ('pkg/src/core/a1.txt', 'file', ''), ('PKG/src/core/b2.txt', 'file', ''),
+                ('Pkg/src/c3.txt', 'file', ''), ('pkg/src/d4.txt', 'file', ''), ('PKG/src/core/sub', 'dir', ''), ('PKG/src/core/sub/e5.txt', 'file', ''),
+                ('other', 'dir', ''), ('other/src', 'dir', ''), ('other/src/f6.txt', 'file', '')]
+        keep = [e for e in spec if R_.random() < 0.92]
+        have = {e[0] for e in keep}
+        return [e for e in keep if '/' not in e[0] or e[0].rsplit('/', 1)[0] in have]
+
+    CASE_PATS = ['pkg/src/core/*.txt', 'pkg/src/*', 'pkg/*/core/*', 'pkg/**/*.txt', 'PKG/src/core/*', 'pkg/src/core/sub/*', 'pkg/src/*/*',
+                 'pkg/src/**', 'pkg/*/*/*/*', 'other/src/*', 'pkg/src/core/', 'pkg/s*/c*/?[0-9].txt', 'Pkg/src/core/**/e5.txt']
+
+    def _case_cases(R_, t):
+        out = []
+        for _ in range(6 if quick else 14):
+            fl = G.IGNORECASE if R_.random() < 0.85 else 0
+            for nm, pr in (('GLOBSTAR', 0.7), ('MARK', 0.15), ('EXTGLOB', 0.3), ('NODIR', 0.1)):
+                if R_.random() < pr:
+                    fl |= getattr(G, nm)
+            out.append(K.Case(R_.choice(CASE_PATS), fl, None, R_.choice(['root_dir', 'root_dir', 'cwd', 'dir_fd'])))
+        return out
+
+    def s_k5case(sr):
+        sr.note = 'K5 + the C04 comparison on trees with sibling directories that differ only in case (pkg / PKG / Pkg), literal first segment'
+        K.k5_loop(sr, drv, G, W, U, R, 25 if quick else 300, _case_cases, on_case, spec_for=_case_spec)
+    ck.stream('K5-case-variant-starts', s_k5case)
+
     def s_k6(sr):
         sr.note = ('K6: globmatch/globfilter(REALPATH) via root_dir/cwd/dir_fd on every tree entry (also through links), '
                    'with/without trailing separator, non-existent and absolute spellings, and every glob result vs matchReal')
